@@ -33,6 +33,8 @@ class UserExc(Exception):
 def err_code(e):
     if isinstance(e, UserExc):
         return (1, 10, e.ident)
+    if isinstance(e, Warning):
+        return (1, 11)
     if isinstance(e, optree._C.InternalError):
         return (1, 7)
     if isinstance(e, RecursionError):
